@@ -227,7 +227,7 @@ def layout_obs(t):
     return ob
 
 
-def run_impl(cases):
+def _run_impl_raw(cases):
     import pickle
     from fractions import Fraction
     from pathlib import Path
@@ -366,3 +366,16 @@ def shrink(case):
                 o = dict(case)
                 o[side] = n
                 yield o
+
+
+def run_impl(cases):
+    """every case under a wall-clock ceiling (>= 50x the slowest case on the unchanged tree): a hang becomes a reported failure"""
+    import rt
+
+    out = []
+    for case in cases:
+        try:
+            out.append(rt.with_alarm(60, lambda c=case: _run_impl_raw([c])[0]))
+        except rt.CaseTimeout:
+            out.append({"harness_fail": True, "pred_fail": "the implementation did not finish this case within 60 s (cases are generated under a cost guard of well below a second)"})
+    return out
